@@ -37,6 +37,7 @@ std::unique_ptr<GMGPolar> new_solver(const SolverOpts& o, Problem& keep_exact_co
 
 // Swarm generator for the configuration set of C01 (in_c01_set) or wider.
 SolverOpts gen_opts(Rng& g, long max_nodes, bool c01_set);
+void bound_cost(SolverOpts& o, long max_nodes, long max_coarsest);
 
 // Independent recomputation of the (extrapolated) residual norm of u on `grid` from fresh input functions.
 struct IndepResidual {
